@@ -1,6 +1,7 @@
 from pulser.backend import EmulatorBackend, Results, BitStrings
 from emu_mps.mps_config import MPSConfig
 from emu_base import init_logging, PulserData, SequenceData
+from emu_base import _verif
 from emu_mps.mps_backend_impl import create_impl, MPSBackendImpl
 import pickle
 import os
@@ -40,6 +41,19 @@ class MPSBackend(EmulatorBackend):
 
         impl.autosave_file = autosave_file
         impl.last_save_time = time.time()
+        if _verif.enabled():
+            _verif.emit(
+                "resume",
+                file=str(autosave_file),
+                cls=type(impl).__name__,
+                ts=impl._timestep_index,
+                sw=impl._sweep_index,
+                dir=impl._swipe_direction,
+                cur=impl.current_time,
+                tgt=impl.target_time,
+                perm=impl.qubit_permutation,
+                reorder=bool(impl.config.optimize_qubit_ordering),
+            )
         logger = init_logging(impl.config.log_level, impl.config.log_file)
 
         logger.warning(
@@ -64,6 +78,8 @@ class MPSBackend(EmulatorBackend):
         results = []
         for sequence_data in pulser_data.get_sequences():
             results.append(self._run_from_sequence_data(sequence_data, self._config))
+        if _verif.enabled():
+            _verif.emit("aggregate", backend="mps", n=len(results))
         return Results.aggregate(results)
 
     @staticmethod
@@ -73,6 +89,8 @@ class MPSBackend(EmulatorBackend):
         impl = create_impl(sequence_data, config)
         impl.init()  # This is separate from the constructor for testing purposes.
         result = MPSBackend._run(impl)
+        if _verif.enabled():
+            _verif.emit("run_sd_done", reorder=bool(config.optimize_qubit_ordering))
         return impl.permute_results(result, config.optimize_qubit_ordering)
 
     @staticmethod
@@ -83,4 +101,12 @@ class MPSBackend(EmulatorBackend):
         if impl.autosave_file.is_file():
             os.remove(impl.autosave_file)
 
+        if _verif.enabled():
+            _verif.emit(
+                "run_done",
+                file=str(impl.autosave_file),
+                file_exists=impl.autosave_file.is_file(),
+                atom_order=[str(q) for q in impl.results.atom_order],
+                times=_verif.result_times(impl.results),
+            )
         return impl.results
